@@ -286,7 +286,7 @@ def r08_2(ctx, rep):
         # encoders: functions en -> u8 must be casts of the discriminant
         encs = [f for f in fx.fns.values() if f["kind"] in ("method", "fn") and f.get("output") == "u8" and f.get("inputs") in ([en], ["&" + en])]
         for f in encs:
-            eng = sym.Engine(fx, inline_only=set())
+            eng = sym.Engine(fx, inline_only=set(getattr(fx, "new_helpers", ())))
             for row in eng.table(f["id"]):
                 if row.exit == "return":
                     t = row.ret
@@ -431,7 +431,7 @@ def r08_4(ctx, rep, roles):
     cg = callgraph.CallGraph(fx)
     for cs in cg.callers_of(roles.builder_finish["id"]):
         n += 1
-        eng = sym.Engine(fx, no_inline={roles.builder_finish["id"]}, inline_only=set())
+        eng = sym.Engine(fx, no_inline={roles.builder_finish["id"]}, inline_only=set(getattr(fx, "new_helpers", ())))
         okc = False
         desc = None
         for row in eng.table(cs.caller):
@@ -459,7 +459,7 @@ def r08_5(ctx, rep, roles):
     wbt = wbt[0]
     # T2: constant in Delta::serialize
     ds = [f for f in fx.fns.values() if f.get("impl_self") == "delta::Delta" and f.get("impl_trait") == "serialize::Serializable" and f["id"].endswith("::serialize")][0]
-    eng = sym.Engine(fx, no_inline={wbt["id"]}, inline_only=set())
+    eng = sym.Engine(fx, no_inline={wbt["id"]}, inline_only=set(getattr(fx, "new_helpers", ())))
     t2 = None
     for row in eng.table(ds["id"]):
         for e in row.calls():
